@@ -10,6 +10,16 @@ PROPS = {
         "assumptions": ["default policy = onet.RequirePublicIP as wired in NewPacketHandler / defaultDialer"],
         "explanation": "exact characterisation theorem over all 2^32+2^128 addresses (both directions) against the CIDR list and guard structure regenerated from net/private_net.go; correspondence: real RequirePublicIP/IsPrivateAddress/net.IP predicates on all block boundaries in 4-byte, mapped and native form + random",
     },
+    "C19": {
+        "gen_keys": ["sites"],
+        "corr": False,
+        "race_binary": True,
+        "trusted_base": ["translator G3 (extractor/sites.go, go/types via golang.org/x/tools/go/packages v0.29.0): field identity, the locks syntactically held at each access (intra-procedural; unexported helpers inherit the intersection of their call sites' locks), classification of read vs write",
+                         "the hand-written discipline table (theories/Lockset.v discipline_table) incl. the Confined / WriteOnceBeforeSpawn entries, whose soundness argument (goroutine confinement; publication by goroutine creation) is not part of the LTS theorem",
+                         "Go memory model: mutex acquire/release and goroutine creation are synchronisation edges"],
+        "assumptions": ["races inside dependencies (SDK, prometheus client, stdlib) are out of scope", "sync.Once, channels and atomic values are synchronisation primitives, not data"],
+        "explanation": "generic theorem: lockset discipline (reads under the guard, writes under the exclusive guard, RW mutex) => no reachable state has a race, for any number of threads and schedules; critical sections atomic; instance obligation recomputed over every access site of 25 shared fields; PARTIAL: Confined and WriteOnceBeforeSpawn disciplines are checked syntactically only; race-detector runs of five component scenarios as search",
+    },
     "C20": {
         "gen_keys": ["labels", "ipinfo"],
         "trusted_base": ["net.SplitHostPort / net.ParseIP decide the parse class of an address string (stdlib; the harness supplies strings of known class)",
